@@ -23,9 +23,14 @@ def setup():
     with core.BuildLock():
         ok, log = core.make(["all"])
     open(os.path.join(core.BUILD, "setup.log"), "w").write(log)
+    built = [f for f in core.coq_sources() if os.path.exists(os.path.join(core.COQ, f + "o"))]
+    missing = [f for f in core.coq_sources() if f not in built]
     if not ok:
-        print(log[-3000:])
-        return 1
+        # every check rebuilds what its property needs and reports a broken obligation itself, so a file that does
+        # not compile fails exactly the properties that depend on it; the set-up only fails if nothing could be built
+        print(log[-2500:])
+        print("setup: %d of %d coq files built; NOT built: %s" % (len(built), len(core.coq_sources()), ", ".join(missing)))
+        return 0 if os.path.exists(os.path.join(core.COQ, "Model", "Val.vo")) else 1
     print("setup ok: %d coq files built in %.0fs" % (len(core.coq_sources()), time.time() - ctx.t0))
     return 0
 
